@@ -11,6 +11,8 @@ def reg(pid, technique, text, note, category="exploration"):
     R[pid] = (category, technique, text, note)
 
 exec((HERE / "tools" / "registry.py").read_text())
+for f in sorted((HERE / "tools" / "registry.d").glob("*.py")):
+    exec(f.read_text())
 
 checks = []
 for p in props:
